@@ -97,4 +97,14 @@ PROPS = {
         ],
         assumptions=["documents are well-formed XML; no element named body occurs below the body element (the depth counter of the order pass is not adjusted for it)"],
     ),
+    "C12": dict(
+        gen=[],
+        trusted=[
+            "modelled after the code: rag.DocumentChunker.ChunkDocument / chunkPage / textBlockToChunks / createTextChunk / createHeadingChunk / createChunkFromHeading / createListChunk / createTableChunk / createImageChunk, isHeadingElement, getHeadingLevel, enterSection; splitting of oversized text blocks is the C13 model (SizeCalculator.SplitToSize for character and token maxima, DefaultSizeConfig otherwise); rag.Chunker.buildSections and the depth-first walk of Chunk (through the verif hook VerifSections)",
+            "model.Table.ToMarkdown is an oracle for table chunks (its text is passed to the model; C15 covers it); the harness checks that every cell text is in it",
+            "NOT modelled: rag.Chunker.chunkSection / splitSectionByParagraphs / splitBySentences / orphan merging / atomic blocks / list-intro detection of the section chunker: their chunks are checked by property predicates on the implementation only (indices, totals, identifiers, every content anchor once and in order, section path against an independently computed enclosing chain, page range against the pages of the chunk's own content); ChunkWithOverlapEnabled; chunk statistics; bounding boxes",
+            "document order for the section chunker is the order page.Layout gives: per page its headings, then its paragraphs, then its lists (PageLayout carries no interleaving of the three lists)",
+        ],
+        assumptions=["page.Elements hold only Heading, Paragraph, List, Table and Image elements (others are skipped by the chunker)"],
+    ),
 }
